@@ -1,16 +1,29 @@
 import VaxisModel.Driver.Common
 import VaxisModel.Model.ImageFit
+import VaxisModel.Model.Blocks
+import VaxisModel.Model.Placements
 import VaxisModel.Spec.Images
 
-/-! Driver for C20.  Lines (`op<TAB>impl` → `model-canon<TAB>impl-canon<TAB>verdict`):
+/-! Driver for C20.  Lines (`op<TAB>impl` → `model-canon<TAB>impl-canon<TAB>verdict`), see
+harness/cmd/C20/main.go for the ops.
 
-* `dims wPix hPix w h cellW cellH` ⇒ impl `newW newH` | `panic`
-  (real `resizeImage` through `VerifResizeDims`); model = `resizeDims` with the native-`Float`
-  instance of `FloatOps`; verdict = fit / no-upscale / aspect evaluated on the implementation's
-  result, and the float hypothesis `Sound` evaluated on every float value this case uses.
+* `dims …`: model = `resizeDims` with the native-`Float` instance of `FloatOps`; verdict = fit /
+  no-upscale / aspect on the implementation's result + the float hypothesis `Sound` on every float
+  value the case uses.
+* `torgb|nrgba|rgba|avg …`: model = `toRGB` / `averageColor`; verdict = opaque-exact,
+  translucent-within-one, alpha preserved.
+* `half|full …`: model = cell size + the cells the block renderer produces for an unscaled image,
+  placed through the window; verdict = the property's pixel clause evaluated on the cells the
+  implementation drew (glyph table, colours within one / exact when opaque, default colour when
+  transparent enough, nothing outside the window).
+* `knew|kimg|kresize|kdraw|kclear|krender|krefresh`: model = `Placements` + `protoCellSize`;
+  verdict = the spec's diff against the previous frame (`Spec.Images.mustWrite/mustDelete`) on the
+  graphics sequences the implementation wrote.
 -/
 namespace VaxisModel.Driver.C20
 open VaxisModel.Driver VaxisModel.Model.ImageFit VaxisModel.Spec.Images
+open VaxisModel.Model.Blocks (C16 C8 BCell Img)
+open VaxisModel.Model
 
 /-- IEEE-754 doubles, the same operations in the same order as the Go code. -/
 def floatOps : FloatOps where
@@ -48,8 +61,353 @@ def dimsVerdict (wPix hPix w h cellW cellH : Nat) (impl : String) : String :=
     else "ok"
   | _ => "FAIL unparsable result"
 
+/-! ### pixels -/
+
+def showC8 (c : C8) : String := s!"{c.r} {c.g} {c.b} {c.a}"
+
+def c16of (q : Nat × Nat × Nat × Nat) : C16 := ⟨q.1, q.2.1, q.2.2.1, q.2.2.2⟩
+
+/-- `c' ∈ [c-1, c]`, and `c' = c` when opaque. -/
+def near (alpha c c' : Nat) : Bool := if alpha = 255 then c' == c else (c' ≤ c && c ≤ c' + 1)
+
+/-- Oracle for one straight-alpha 8-bit colour: alpha kept, channels exact when opaque, within one
+    when translucent; a fully transparent pixel carries no colour. -/
+def nrgbaVerdict (r g b a : Nat) (impl : String) : String :=
+  match natList? (fields impl) with
+  | some [r', g', b', a'] =>
+    if a' ≠ a then s!"FAIL alpha {a} became {a'}"
+    else if a = 0 then (if r' = 0 ∧ g' = 0 ∧ b' = 0 then "ok" else "FAIL colour from a fully transparent pixel")
+    else if near a r r' && near a g g' && near a b b' then "ok"
+    else s!"FAIL colour ({r},{g},{b}) alpha {a} became ({r'},{g'},{b'})"
+  | _ => "FAIL unparsable result"
+
+/-- Oracle for a premultiplied 8-bit colour (`c ≤ a`): alpha kept; the straight colour `c·255/a`
+    within one, exact when opaque. -/
+def rgbaVerdict (r g b a : Nat) (impl : String) : String :=
+  if r > a ∨ g > a ∨ b > a then "-" else
+  match natList? (fields impl) with
+  | some [r', g', b', a'] =>
+    if a' ≠ a then s!"FAIL alpha {a} became {a'}"
+    else if a = 0 then (if r' = 0 ∧ g' = 0 ∧ b' = 0 then "ok" else "FAIL colour from a fully transparent pixel")
+    else
+      let okc (c c' : Nat) : Bool := c' * a ≤ c * 255 + a && c * 255 ≤ (c' + 1) * a && (a ≠ 255 || c' == c)
+      if okc r r' && okc g g' && okc b b' then "ok"
+      else s!"FAIL premultiplied ({r},{g},{b},{a}) became ({r'},{g'},{b'})"
+  | _ => "FAIL unparsable result"
+
+def quads : List Nat → Option (List C16)
+  | [] => some []
+  | r :: g :: b :: a :: rest => (quads rest).map (⟨r, g, b, a⟩ :: ·)
+  | _ => none
+
+/-! ### block images -/
+
+def screenW : Nat := 16
+def screenH : Nat := 8
+
+def utf8Hex (cp : Nat) : String :=
+  hexOfBytes ((String.singleton (Char.ofNat cp)).toUTF8.toList.map (·.toNat))
+
+def showBCell (x y : Nat) (c : BCell) : String :=
+  let g := if c.glyph = 0 then "-" else utf8Hex c.glyph
+  s!"{x},{y}:{g}:{c.fg}:{c.bg}"
+
+/-- `Window().New(col,row,ww,wh)` of the full-screen window: resulting width/height. -/
+def childExtent (off want total : Int) : Int :=
+  if want < 0 then total - off else if want + off > total then total - off else want
+
+structure Pix8 where
+  r : Nat
+  g : Nat
+  b : Nat
+  a : Nat
+  deriving Inhabited
+
+def parsePixels (W H : Nat) (hexs : String) : Option (Array Pix8) := do
+  let bytes ← hexBytes? hexs
+  if bytes.length ≠ 4 * W * H then none
+  let rec go : List Nat → Array Pix8 → Array Pix8
+    | r :: g :: b :: a :: rest, acc => go rest (acc.push ⟨r, g, b, a⟩)
+    | _, acc => acc
+  some (go bytes #[])
+
+def pixAt (W H : Nat) (px : Array Pix8) (x y : Nat) : Pix8 :=
+  if x < W ∧ y < H then px.getD (y * W + x) ⟨0, 0, 0, 0⟩ else ⟨0, 0, 0, 0⟩
+
+/-- Model side of a `half`/`full` line. -/
+def blockModel (half : Bool) (W H : Nat) (px : Array Pix8) (bw bh : Nat) (col row : Nat) (ww wh : Int) : String :=
+  let geom := if half then Gen.ImageConsts.halfBlockGeom else Gen.ImageConsts.fullBlockGeom
+  match resizeDims floatOps W H bw bh geom.1 geom.2 with
+  | .error _ => "panic"
+  | .ok (pw, ph) =>
+    let size := s!"{pw} {blockHeight ph}"
+    if (pw, ph) ≠ (W, H) then size ++ ";scaled" else
+    let img : Img := ⟨W, H, px.map fun p => c16of (nrgbaRGBA p.r p.g p.b p.a)⟩
+    let cells := if half then Blocks.halfCells img else Blocks.fullCells img
+    let width := childExtent col ww screenW
+    let height := childExtent row wh screenH
+    let drawn := cells.filter fun (x, y, c) =>
+      (x : Int) < width && (y : Int) < height && col + x < screenW && row + y < screenH &&
+      c != (⟨0x20, 0, 0⟩ : BCell)
+    -- screen order = row major; the cell list is row major within the image already
+    size ++ String.join (drawn.map fun (x, y, c) => ";" ++ showBCell (col + x) (row + y) c)
+
+structure ICell where
+  x : Nat
+  y : Nat
+  glyph : String
+  fg : Nat
+  bg : Nat
+
+def parseICell (s : String) : Option ICell :=
+  match s.splitOn ":" with
+  | [xy, g, fg, bg] =>
+    match xy.splitOn ",", fg.toNat?, bg.toNat? with
+    | [x, y], some fg, some bg =>
+      match x.toNat?, y.toNat? with
+      | some x, some y => some ⟨x, y, g, fg, bg⟩
+      | _, _ => none
+    | _, _, _ => none
+  | _ => none
+
+/-- Is `v` a direct colour whose channels are `near` the given straight colour? -/
+def colourNear (alpha r g b v : Nat) : Bool :=
+  v / 2 ^ 24 == 2 && near alpha r (v / 65536 % 256) && near alpha g (v / 256 % 256) && near alpha b (v % 256)
+
+/-- The property's pixel clause for one cell of a half-block image. -/
+def halfExpected (t b : Pix8) (c : ICell) : Option String :=
+  let T := 50
+  let bad (why : String) := some s!"cell {c.x},{c.y}: {why}"
+  if t.a < T ∧ b.a < T then
+    if c.glyph = "20" ∧ c.fg = 0 ∧ c.bg = 0 then none else bad "both pixels transparent but not a default space"
+  else if t.a < T then
+    if c.glyph ≠ "e29684" then bad "top transparent but glyph is not the lower half block"
+    else if c.bg ≠ 0 then bad "top transparent but background is not the default colour"
+    else if colourNear b.a b.r b.g b.b c.fg then none else bad s!"foreground {c.fg} is not the bottom pixel ({b.r},{b.g},{b.b})"
+  else if b.a < T then
+    if c.glyph ≠ "e29680" then bad "bottom transparent but glyph is not the upper half block"
+    else if c.bg ≠ 0 then bad "bottom transparent but background is not the default colour"
+    else if colourNear t.a t.r t.g t.b c.fg then none else bad s!"foreground {c.fg} is not the top pixel ({t.r},{t.g},{t.b})"
+  else
+    if c.glyph ≠ "e29680" then bad "glyph is not the upper half block"
+    else if !colourNear t.a t.r t.g t.b c.fg then bad s!"foreground {c.fg} is not the top pixel ({t.r},{t.g},{t.b})"
+    else if !colourNear b.a b.r b.g b.b c.bg then bad s!"background {c.bg} is not the bottom pixel ({b.r},{b.g},{b.b})"
+    else none
+
+/-- Full block: the background is the mean of the two pixels (a fully transparent pixel counts as
+    black), within one per channel (exact when both are opaque or fully transparent); default colour
+    when the mean alpha is below the threshold. -/
+def fullExpected (t b : Pix8) (c : ICell) : Option String :=
+  let bad (why : String) := some s!"cell {c.x},{c.y}: {why}"
+  if c.glyph ≠ "20" ∨ c.fg ≠ 0 then bad "not a space with default foreground"
+  else if (t.a + b.a) / 2 < 50 then (if c.bg = 0 then none else bad "mean alpha below threshold but a colour is set")
+  else
+    let ch (p : Pix8) (v : Nat) : Nat := if p.a = 0 then 0 else v
+    let slack (p : Pix8) : Nat := if p.a = 0 ∨ p.a = 255 then 0 else 1
+    let okc (tv bv got : Nat) : Bool :=
+      let hi := (ch t tv + ch b bv) / 2
+      let lo := (ch t tv + ch b bv - slack t - slack b) / 2
+      lo ≤ got && got ≤ hi
+    if c.bg / 2 ^ 24 ≠ 2 then bad s!"background {c.bg} is not a direct colour"
+    else if okc t.r b.r (c.bg / 65536 % 256) && okc t.g b.g (c.bg / 256 % 256) && okc t.b b.b (c.bg % 256) then none
+    else bad s!"background {c.bg} is not the mean of ({t.r},{t.g},{t.b},{t.a}) and ({b.r},{b.g},{b.b},{b.a})"
+
+/-- Oracle side of a `half`/`full` line, evaluated on what the implementation drew. -/
+def blockVerdict (half : Bool) (W H : Nat) (px : Array Pix8) (bw bh : Nat) (col row : Nat) (ww wh : Int)
+    (impl : String) : String :=
+  if impl = "panic" then "FAIL panic" else
+  match impl.splitOn ";" with
+  | [] => "FAIL unparsable result"
+  | size :: cellStrs =>
+    match natList? (fields size) with
+    | some [cw, chh] =>
+      if cw > bw ∨ chh > bh then s!"FAIL cell size {cw}x{chh} exceeds box {bw}x{bh}"
+      else if cw > W ∨ chh > (H + 1) / 2 then s!"FAIL upscaled to {cw}x{chh} cells"
+      else
+        let width := childExtent col ww screenW
+        let height := childExtent row wh screenH
+        let scaled := W > bw ∨ (H + 1) / 2 > bh
+        let rec go : List String → Nat → Option String
+          | [], _ => none
+          | s :: rest, n =>
+            match parseICell s with
+            | none => some s!"unparsable cell {s}"
+            | some c =>
+              if ¬ (col ≤ c.x ∧ (c.x : Int) < col + width ∧ row ≤ c.y ∧ (c.y : Int) < row + height) then
+                some s!"cell {c.x},{c.y} outside the window"
+              else if c.x - col ≥ cw ∨ c.y - row ≥ chh then some s!"cell {c.x},{c.y} outside the image"
+              else if scaled then go rest (n + 1)
+              else
+                let t := pixAt W H px (c.x - col) (2 * (c.y - row))
+                let b := pixAt W H px (c.x - col) (2 * (c.y - row) + 1)
+                match (if half then halfExpected t b c else fullExpected t b c) with
+                | some why => some why
+                | none => go rest (n + 1)
+        match go cellStrs 0 with
+        | some why => "FAIL " ++ why
+        | none =>
+          if scaled then "ok" else
+          -- every cell of the image inside the window that should show a colour must have been drawn
+          let missing := (List.range (cw * chh)).filter fun i =>
+            let x := i % cw
+            let y := i / cw
+            let t := pixAt W H px x (2 * y)
+            let b := pixAt W H px x (2 * y + 1)
+            let visible := if half then ¬ (t.a < 50 ∧ b.a < 50) else ¬ ((t.a + b.a) / 2 < 50)
+            let inside := (x : Int) < width && (y : Int) < height && col + x < screenW && row + y < screenH
+            visible && inside && !(cellStrs.any fun s => s.startsWith s!"{col + x},{row + y}:")
+          if missing.isEmpty then "ok" else s!"FAIL {missing.length} visible cells not drawn"
+    | _ => "FAIL unparsable result"
+
+/-! ### placements -/
+
+structure KImg where
+  wPix : Nat
+  hPix : Nat
+  mw : Nat := 0      -- model cell size
+  mh : Nat := 0
+  iw : Nat := 0      -- cell size reported by the implementation
+  ih : Nat := 0
+  uploaded : Bool := false   -- `k.uploaded`
+  pending : Nat := 0         -- encodings accumulated in `k.buf` (Resize appends, the upload resets)
+
 structure St where
-  dummy : Unit := ()
+  active : Bool := false
+  cols : Nat := 0
+  rows : Nat := 0
+  xpix : Nat := 0
+  ypix : Nat := 0
+  imgs : List (Nat × KImg) := []        -- key = the op's image number; id = position (1-based)
+  ps : Placements.State := Placements.init
+  -- spec side: what the application asked for, with the sizes the implementation reported
+  cur : List Placement := []
+  prev : List Placement := []
+  pending : Bool := true
+
+def St.img? (s : St) (n : Nat) : Option (Nat × KImg) :=
+  match s.imgs.findIdx? (·.1 == n) with
+  | some i => (s.imgs[i]?).map fun p => (i + 1, p.2)
+  | none => none
+
+def St.setImg (s : St) (n : Nat) (k : KImg) : St :=
+  { s with imgs := s.imgs.map fun p => if p.1 == n then (n, k) else p }
+
+def showP (p : Placement) : String := s!"{p.id}@{p.col},{p.row}:{p.w}x{p.h}"
+def showPshort (p : Placement) : String := s!"{p.id}@{p.col},{p.row}"
+def showList (f : Placement → String) (l : List Placement) : String :=
+  if l.isEmpty then "-" else ";".intercalate (l.map f)
+def showStrs (l : List String) : String := if l.isEmpty then "-" else ";".intercalate l
+
+def snap (s : Placements.State) : String :=
+  s!"N={showList showP s.next} L={showList showP s.last} R={if s.refresh then 1 else 0}"
+
+def sortStrs (l : List String) : List String := l.mergeSort fun a b => !(b < a)
+
+def getField (impl key : String) : Option (List String) :=
+  (fields impl).findSome? fun f =>
+    if f.startsWith (key ++ "=") then
+      let v := (f.drop (key.length + 1)).toString
+      some (if v = "-" then [] else v.splitOn ";")
+    else none
+
+/-- Spec verdict for one rendered frame on the sequences the implementation wrote. -/
+def renderVerdict (prev : List Placement) (f : Frame) (impl : String) : String :=
+  if impl = "panic" then "FAIL panic" else
+  match getField impl "D", getField impl "W" with
+  | some d, some w =>
+    let wantD := sortStrs ((mustDelete prev f).map showPshort)
+    let wantW := sortStrs ((mustWrite prev f).map showPshort)
+    let gotD := sortStrs d
+    let gotW := sortStrs w
+    if gotW ≠ wantW then
+      match wantW.find? (fun x => ¬ gotW.contains x), gotW.find? (fun x => ¬ wantW.contains x) with
+      | some x, _ => s!"FAIL placement {x} not transmitted"
+      | _, some x => s!"FAIL placement {x} transmitted although unchanged"
+      | _, _ => s!"FAIL transmitted {showStrs gotW} but expected {showStrs wantW}"
+    else if gotD ≠ wantD then
+      match wantD.find? (fun x => ¬ gotD.contains x), gotD.find? (fun x => ¬ wantD.contains x) with
+      | some x, _ => s!"FAIL placement {x} not deleted"
+      | _, some x => s!"FAIL placement {x} deleted although still shown"
+      | _, _ => s!"FAIL deleted {showStrs gotD} but expected {showStrs wantD}"
+    else "ok"
+  | _, _ => "FAIL unparsable result"
+
+def bad : String := "bad-op\tbad-op\tbad-op"
+
+def kstep (s : St) (op : List String) (impl : String) : St × String :=
+  match op with
+  | ["knew", c, r, x, y] =>
+    match natList? [c, r, x, y] with
+    | some [c, r, x, y] =>
+      let s' : St := { active := true, cols := c, rows := r, xpix := x, ypix := y }
+      (s', s!"{snap s'.ps}\t{impl}\t-")
+    | _ => (s, bad)
+  | ["kimg", n, w, h] =>
+    match natList? [n, w, h] with
+    | some [n, w, h] => ({ s with imgs := s.imgs ++ [(n, { wPix := w, hPix := h })] }, s!"ok\t{impl}\t-")
+    | _ => (s, bad)
+  | ["kresize", n, w, h] =>
+    match natList? [n, w, h] with
+    | some [n, w, h] =>
+      match s.img? n with
+      | none => (s, bad)
+      | some (_, k) =>
+        let cellW := s.xpix / s.cols
+        let cellH := s.ypix / s.rows
+        -- model
+        let (mcanon, k1) : String × KImg :=
+          match resizeDims floatOps k.wPix k.hPix w h cellW cellH, protoCellSize floatOps k.wPix k.hPix w h cellW cellH with
+          | .ok (pw, ph), .ok (cw, chh) =>
+            if pw = 0 ∨ ph = 0 then (s!"{cw} {chh} noencode", { k with mw := cw, mh := chh })
+            else (s!"{cw} {chh}", { k with mw := cw, mh := chh, uploaded := false, pending := k.pending + 1 })
+          | _, _ => ("panic", k)
+        -- oracle on the implementation's answer
+        let (verdict, k2) : String × KImg :=
+          if impl = "panic" then
+            (if cellW = 0 ∨ cellH = 0 then s!"FAIL panic: integer divide by zero for cell geometry {cellW}x{cellH}"
+             else "FAIL panic", k1)
+          else match (fields impl).take 2 |> natList? with
+          | some [cw, chh] =>
+            let v := if cw > w ∨ chh > h then s!"FAIL cell size {cw}x{chh} exceeds box {w}x{h}"
+                     else if cw > ceilDiv k.wPix cellW ∨ chh > ceilDiv k.hPix cellH then s!"FAIL upscaled to {cw}x{chh} cells"
+                     else "ok"
+            (v, { k1 with iw := cw, ih := chh })
+          | _ => ("FAIL unparsable result", k1)
+        (s.setImg n k2, s!"{mcanon}\t{impl}\t{verdict}")
+    | _ => (s, bad)
+  | ["kdraw", n, c, r] =>
+    match natList? [n, c, r] with
+    | some [n, c, r] =>
+      match s.img? n with
+      | none => (s, bad)
+      | some (id, k) =>
+        let ps := (Placements.step s.ps (.draw ⟨id, c, r, k.mw, k.mh⟩)).1
+        let s' := { s with ps := ps, cur := s.cur ++ [⟨id, c, r, k.iw, k.ih⟩] }
+        (s', s!"{snap ps}\t{impl}\t-")
+    | _ => (s, bad)
+  | ["kclear"] =>
+    let ps := (Placements.step s.ps .clear).1
+    ({ s with ps := ps, cur := [] }, s!"{snap ps}\t{impl}\t-")
+  | [k] =>
+    if k = "krender" ∨ k = "krefresh" then
+      let isRefresh := k = "krefresh"
+      let (ps, out) := Placements.step s.ps (if isRefresh then .refresh else .render)
+      let out := out.getD ⟨[], []⟩
+      -- uploads: image data goes out with the first placement after a successful encode
+      let (imgs, ups) := out.writes.foldl (fun (acc : List (Nat × KImg) × List String) p =>
+        match acc.1[p.id - 1]? with
+        | some (n, k) =>
+          if !k.uploaded then
+            (acc.1.set (p.id - 1) (n, { k with uploaded := true, pending := 0 }),
+             acc.2 ++ List.replicate k.pending (toString p.id))
+          else acc
+        | none => acc) (s.imgs, [])
+      let mcanon := s!"D={showList showPshort out.deletes} W={showList showPshort out.writes} U={showStrs ups} {snap ps}"
+      let frame : Frame := ⟨s.cur, s.pending || isRefresh⟩
+      let verdict := renderVerdict s.prev frame impl
+      ({ s with ps := ps, imgs := imgs, prev := s.cur, pending := false }, s!"{mcanon}\t{impl}\t{verdict}")
+    else (s, bad)
+  | _ => (s, bad)
 
 def step (s : St) (line : String) : St × String :=
   let (op, impl) := splitTab line
@@ -60,8 +418,48 @@ def step (s : St) (line : String) : St × String :=
     | some [wPix, hPix, w, h, cellW, cellH] =>
       let m := showDims (resizeDims floatOps wPix hPix w h cellW cellH)
       (s, s!"{m}\t{impl}\t{dimsVerdict wPix hPix w h cellW cellH impl}")
-    | _ => (s, "bad-op\tbad-op\tbad-op")
-  | _ => (s, "bad-op\tbad-op\tbad-op")
+    | _ => (s, bad)
+  | "torgb" :: rest =>
+    match natList? rest with
+    | some [r, g, b, a] =>
+      let m := Blocks.toRGB ⟨r, g, b, a⟩
+      let v := if r ≤ a ∧ g ≤ a ∧ b ≤ a ∧ a < 65536 then
+                 (if impl = showC8 ⟨if a = 0 then 0 else r * 255 / a, if a = 0 then 0 else g * 255 / a,
+                                    if a = 0 then 0 else b * 255 / a, a / 256⟩ then "ok"
+                  else "FAIL premultiplied colour not divided out")
+               else "-"
+      (s, s!"{showC8 m}\t{impl}\t{v}")
+    | _ => (s, bad)
+  | "nrgba" :: rest =>
+    match natList? rest with
+    | some [r, g, b, a] =>
+      (s, s!"{showC8 (Blocks.toRGB (c16of (nrgbaRGBA r g b a)))}\t{impl}\t{nrgbaVerdict r g b a impl}")
+    | _ => (s, bad)
+  | "rgba" :: rest =>
+    match natList? rest with
+    | some [r, g, b, a] =>
+      (s, s!"{showC8 (Blocks.toRGB (c16of (rgbaRGBA r g b a)))}\t{impl}\t{rgbaVerdict r g b a impl}")
+    | _ => (s, bad)
+  | "avg" :: rest =>
+    match (natList? rest).bind quads with
+    | some (c :: cs) => (s, s!"{showC8 (Blocks.averageColor c cs)}\t{impl}\t-")
+    | _ => (s, bad)
+  | [kind, W, H, hexs, bw, bh, col, row, ww, wh] =>
+    if kind = "half" ∨ kind = "full" then
+      match natList? [W, H, bw, bh, col, row], ww.toInt?, wh.toInt? with
+      | some [W, H, bw, bh, col, row], some ww, some wh =>
+        match parsePixels W H hexs with
+        | some px =>
+          let half := kind = "half"
+          let m := blockModel half W H px bw bh col row ww wh
+          let ic := if m.endsWith ";scaled" then
+                      (match impl.splitOn ";" with | sz :: _ => sz ++ ";scaled" | [] => impl)
+                    else impl
+          (s, s!"{m}\t{ic}\t{blockVerdict half W H px bw bh col row ww wh impl}")
+        | none => (s, bad)
+      | _, _, _ => (s, bad)
+    else (s, bad)
+  | op => if op.head?.any (·.startsWith "k") then kstep s op impl else (s, bad)
 
 def main : IO Unit := foldLoop ({} : St) step
 
